@@ -161,6 +161,44 @@ Theorem c04_quantile_input_ascending :
 Proof. exact asc_metrics_sorted. Qed.
 Print Assumptions c04_quantile_input_ascending.
 
+(* PASHA: in every reachable state, a report that the rung system accepts raises current_max_t exactly
+   when the soft ranking of the top two rungs changed (and the cap is not yet max_t). rs1 = rung system
+   after the superclass call (metric registered), rs2 = after _update_per_epoch_results / _update_epsilon.
+   [ranking_changed] (proofs/PromotionProofs.v) is declarative: both rungs at python positions
+   -current_rung_idx and -current_rung_idx + 1 exist and are non-empty, and some trial at position i of
+   the top rung (best first) is not in the group of the entry at position i of the previous rung
+   restricted to trials of the top rung, where the group of an entry x consists of x, the entries below
+   it reached before the first entry worse than x by more than epsilon, and the entries above it reached
+   before the first entry better than x by more than epsilon (epsilon = 0 if fewer than 2 common trials). *)
+Theorem c04_pasha_cap_increases_iff_ranking_changed :
+  forall cfg evs st os s rs t r m c orc rs' info,
+  cfg_wf cfg -> c_variant cfg = VPasha -> run cfg evs = Ok (st, os) -> nth_error (st_sys st) s = Some rs ->
+  rs_on_task_report cfg rs t r m c orc = Ok (rs', info) ->
+  exists rs1 rs2, promo_on_task_report cfg rs t r m c = Ok (rs1, info) /\
+    update_epsilon (set_hist rs1 (add_result (rs_hist rs1) t r m)) orc = Ok rs2 /\
+    rs_rungs rs2 = rs_rungs rs1 /\
+    ((rs_cap rs < rs_cap rs')%Z <->
+       ranking_changed cfg rs2 (h_eps (rs_hist rs2)) /\ (rs_cap rs < c_max_t cfg)%Z) /\
+    (~ ranking_changed cfg rs2 (h_eps (rs_hist rs2)) -> rs' = rs2).
+Proof. exact pasha_cap_increase_reach. Qed.
+Print Assumptions c04_pasha_cap_increases_iff_ranking_changed.
+
+(* The executable ranking comparison is the declarative one. *)
+Theorem c04_pasha_increase_spec :
+  forall cfg rs eps, pasha_increase cfg rs eps = true <-> ranking_changed cfg rs eps.
+Proof. exact pasha_increase_spec. Qed.
+Print Assumptions c04_pasha_increase_spec.
+
+(* epsilon only ever becomes the value of the percentile oracle, and only when some pair of learning
+   curves crossed and crossed back (noisy_distances non-empty); otherwise nothing changes. *)
+Theorem c04_pasha_epsilon_update :
+  forall rs orc rs2, update_epsilon rs orc = Ok rs2 ->
+  (rs2 = rs /\ (noisy_distances rs orc = None \/ noisy_distances rs orc = Some (Ok []))) \/
+  (exists d ds, noisy_distances rs orc = Some (Ok (d :: ds)) /\ h_eps (rs_hist rs2) = o_pct orc /\
+     h_results (rs_hist rs2) = h_results (rs_hist rs) /\ h_epochs (rs_hist rs2) = h_epochs (rs_hist rs)).
+Proof. exact update_epsilon_spec. Qed.
+Print Assumptions c04_pasha_epsilon_update.
+
 (* The boolean checkers the correspondence driver evaluates on protocol-following harness sequences
    imply the hypotheses [consecutive] / [proto_from] of the trace theorems above. *)
 Theorem c04_consecutive_b_sound :
@@ -178,9 +216,9 @@ Print Assumptions c04_proto_b_sound.
    after starts a new trial because 2 > quantile 5/3) *)
 Example c04_example :
   let cfg := mkC VPromotion Min 9 [(1%Z, 1 # 3); (3%Z, 1 # 3)] 1 false true false 0 (1 # 1000000000) true in
-  let evs := [Suggest 0 0 true true; Suggest 1 0 true true; Suggest 2 0 true true;
-              Report 0 1 1 0 0; Remove 0; Report 1 1 2 0 0; Remove 1; Report 2 1 3 0 0; Remove 2;
-              Suggest 3 0 true true; Suggest 3 0 true true] in
+  let evs := [Suggest 0 0 [] true; Suggest 1 0 [] true; Suggest 2 0 [] true;
+              Report 0 1 1 0 (mkO [] 0); Remove 0; Report 1 1 2 0 (mkO [] 0); Remove 1; Report 2 1 3 0 (mkO [] 0); Remove 2;
+              Suggest 3 0 [] true; Suggest 3 0 [] true] in
   cfg_wf cfg /\ cfg_pos cfg /\ consecutive cfg (init cfg) [] evs /\ proto_from cfg (init cfg) evs /\
   exists st, run cfg evs =
     Ok (st, [OStart 0 (Some 1%Z); OStart 1 (Some 1%Z); OStart 2 (Some 1%Z);
